@@ -103,7 +103,7 @@ func main() {
 		}
 	}
 	sort.Strings(pkgsToLoad)
-	needTypes := pass["detrange"] || pass["chanyield"] || pass["detselect"]
+	needTypes := pass["detrange"] || pass["chanyield"] || pass["detselect"] || pass["dettimer"]
 	mode := packages.NeedName | packages.NeedFiles | packages.NeedCompiledGoFiles | packages.NeedSyntax
 	if needTypes {
 		mode |= packages.NeedTypes | packages.NeedTypesInfo | packages.NeedImports
@@ -133,6 +133,9 @@ func main() {
 			}
 			if pass["detselect"] {
 				rw.detselect()
+			}
+			if pass["dettimer"] {
+				rw.dettimer()
 			}
 			if pass["simsync"] {
 				rw.swapImport("sync", "verifsim/simsync", "sync", "sync_imports")
@@ -208,6 +211,46 @@ func pure(e ast.Expr) bool {
 		return pure(x.X)
 	}
 	return false
+}
+
+// dettimer gives every timer armed by repository code its own expiry: inside a synctest
+// bubble the runtime fires timers that share an expiry in a deliberately randomised order
+// (runtime/time.go: "Re-randomize timer order"), which no replay can reproduce. The
+// duration (or deadline) argument of the timer-arming calls is passed through
+// simrt.UniqueDur / UniqueTime, which move the expiry by the few nanoseconds needed to
+// make it unique within the run.
+func (rw *rewriter) dettimer() {
+	durArg := map[string]int{
+		"time.Sleep": 0, "time.After": 0, "time.NewTimer": 0, "time.AfterFunc": 0, "time.NewTicker": 0, "time.Tick": 0,
+		"context.WithTimeout": 1, "context.WithTimeoutCause": 1,
+		"(*time.Timer).Reset": 0, "(*time.Ticker).Reset": 0,
+	}
+	timeArg := map[string]int{"context.WithDeadline": 1, "context.WithDeadlineCause": 1}
+	ast.Inspect(rw.f, func(n ast.Node) bool {
+		call, ok := n.(*ast.CallExpr)
+		if !ok {
+			return true
+		}
+		sel, ok := call.Fun.(*ast.SelectorExpr)
+		if !ok {
+			return true
+		}
+		fn, ok := rw.p.TypesInfo.Uses[sel.Sel].(*types.Func)
+		if !ok {
+			return true
+		}
+		name := fn.FullName()
+		if i, ok := durArg[name]; ok && i < len(call.Args) && call.Ellipsis == token.NoPos {
+			call.Args[i] = &ast.CallExpr{Fun: rtSel("UniqueDur"), Args: []ast.Expr{call.Args[i]}}
+			rw.changed, rw.usesRT = true, true
+			rw.counters["timers_made_unique"]++
+		} else if i, ok := timeArg[name]; ok && i < len(call.Args) && call.Ellipsis == token.NoPos {
+			call.Args[i] = &ast.CallExpr{Fun: rtSel("UniqueTime"), Args: []ast.Expr{call.Args[i]}}
+			rw.changed, rw.usesRT = true, true
+			rw.counters["timers_made_unique"]++
+		}
+		return true
+	})
 }
 
 func rtSel(name string) ast.Expr {
